@@ -617,16 +617,19 @@ func checkErrorsPkg(c *Ctx) {
 			ok = false
 			for _, r := range core.Returns(fn) {
 				if phi, isPhi := r.Results[0].(*ssa.Phi); isPhi {
-					hasP, hasC := false, false
+					hasP, hasC, other := false, false, false
 					for _, e := range phi.Edges {
-						if e == ssa.Value(fn.Params[0]) {
+						switch {
+						case e == ssa.Value(fn.Params[0]):
 							hasP = true
-						}
-						if e == ssa.Value(inv) {
+						case e == ssa.Value(inv):
 							hasC = true
+						case e == ssa.Value(phi):
+						default:
+							other = true // unwinds through something that is not this package's Cause() link
 						}
 					}
-					ok = hasP && hasC
+					ok = hasP && hasC && !other
 				}
 			}
 			// the not-a-causer exit leaves the loop
@@ -643,7 +646,7 @@ func checkErrorsPkg(c *Ctx) {
 			ok = ok && okExit
 		}
 		R.Check(ok, "C08.errors", "errors|Cause|unwinds", P.Pos(fn.Pos()),
-			"Cause() follows Cause() links until a value that does not implement it", "Cause() does not loop over every wrapping layer down to the root error", nil)
+			"Cause() follows Cause() links, and nothing else, until a value that does not implement it", "Cause() does not stop exactly at the first error that is not one of this package's wrappers (it must follow every Cause() link and no other kind of link such as Unwrap(), or it returns something inside the transport's own error)", nil)
 	}
 }
 
